@@ -3,6 +3,11 @@
   gen_vote_first_wins  : restore_tx keeps the FIRST logged vote of a shard (the one the live
                          coordinator accepted) instead of the last
   gen_complete_before_release : commit/abort log TxComplete before releasing any lock
+  gen_timeout_abort_logged : cleanup_timeouts logs PhaseChange -> Aborting and TxComplete{Aborted}
+                         for a timed-out transaction before it removes it / releases its locks
+  gen_scan_phase_plain / gen_scan_complete_plain : the PhaseChange / TxComplete arms of scan_entries
+                         are the unconditional ones of the model (every phase record of a
+                         transaction in progress moves its phase; every completion removes it)
 """
 import os
 import re
@@ -89,6 +94,32 @@ def generate(repo):
         items["TxComplete before lock release"] = "translated"
     except Exception as ex:
         items["TxComplete before lock release"] = "miss:%s" % ex
+    timeout_logged = False
+    try:
+        _, body = find_fn(dtx, "cleanup_timeouts", after=r"impl\s+DistributedTxCoordinator\b")
+        i0 = body.find("TxWalEntry::PhaseChange")
+        i1 = body.find("TxWalEntry::TxComplete")
+        i2 = body.find("pending.remove")
+        i3 = body.find("release_by_handle_with_wait_cleanup")
+        timeout_logged = (0 <= i0 < i1 < i2) and (i1 < i3) and bool(re.search(r"to\s*:\s*TxPhase::Aborting", body[i0:i1])) \
+            and bool(re.search(r"outcome\s*:\s*TxOutcome::Aborted", body[i1:i2]))
+        items["cleanup_timeouts logs the abort"] = "translated"
+    except Exception as ex:
+        items["cleanup_timeouts logs the abort"] = "miss:%s" % ex
+    phase_plain = complete_plain = False
+    try:
+        _, body = find_fn(wal, "scan_entries", after=r"impl\s+TxRecoveryState\b")
+        m = re.search(r"TxWalEntry::PhaseChange\s*\{([^}]*)\}\s*=>\s*\{(.*?)\n\s*\},\s*\n\s*TxWalEntry::TxComplete\s*\{([^}]*)\}\s*=>\s*\{(.*?)\n\s*\},\s*\n\s*TxWalEntry::LockRelease", body, re.S)
+        if not m:
+            raise ValueError("PhaseChange / TxComplete arms not found")
+        arm_p = re.sub(r"\s+", " ", m.group(2)).strip()
+        phase_plain = arm_p == "if let Some((_, _, phase)) = in_progress.get_mut(tx_id) { *phase = *to; }"
+        arm_c = m.group(4)
+        complete_plain = (not re.search(r"\b(continue|return|break)\b", arm_c)) and "outcome" not in m.group(3).replace("..", "") \
+            and "outcome" not in arm_c and bool(re.search(r"\n\s*in_progress\.remove\(tx_id\);\s*\n\s*completed_txs\.insert\(\*tx_id\);\s*$", arm_c))
+        items["scan_entries phase / completion arms"] = "translated"
+    except Exception as ex:
+        items["scan_entries phase / completion arms"] = "miss:%s" % ex
     cap = "None"
     try:
         cap = scan_cap(strip_comments(read(repo, "tensor_chain/src/tx_wal.rs")))
@@ -106,6 +137,12 @@ def generate(repo):
         "(* commit/abort: TxComplete is logged before any lock is released *)\n"
         "Definition gen_complete_before_release : bool := %s.\n" % (_b(tail_repair), _b(scan_live), _b(first_wins), _b(complete_first))
     )
+    text += ("(* cleanup_timeouts: the timeout abort is logged (phase change, completion) before it takes effect *)\n"
+             "Definition gen_timeout_abort_logged : bool := %s.\n"
+             "(* scan_entries: the PhaseChange arm moves the phase of a transaction in progress unconditionally *)\n"
+             "Definition gen_scan_phase_plain : bool := %s.\n"
+             "(* scan_entries: the TxComplete arm removes the transaction whatever the outcome / scanned phase *)\n"
+             "Definition gen_scan_complete_plain : bool := %s.\n" % (_b(timeout_logged), _b(phase_plain), _b(complete_plain)))
     text += ("(* TxWal::complete_prefix_len: a record length above this bound is treated as a torn tail (None = no bound) *)\n"
              "Definition gen_tx_scan_cap : option N := %s.\n" % cap)
     return text, items
